@@ -58,6 +58,26 @@ def withProg (text : String) (f : Prog → String) : String :=
   | .error e => showErr e
   | .ok p => f p
 
+/-- base steps executed by `quick_term_or_rec` up to its verdict (driver-side bookkeeping around
+    the model's `recIter`; 1 = the initial `init_stepped` step) -/
+def recSteps (p : Prog) (simLim : Nat) : String := Id.run do
+  let mut s := RState.init
+  let mut steps : Nat := 1
+  for cycle in [1:simLim] do
+    match recIter p cycle s with
+    | .inl r =>
+      -- the verdict is reached during this cycle: count its step when it is a recurrence
+      let extra := match r with
+        | .recur => match p.get (s.state, s.tape.tape.scan) with
+          | some (color, shift, next) => (s.tape.step shift color (s.state == next)).2
+          | none => 0
+        | _ => 0
+      return s!"{r.show} steps={steps + extra}"
+    | .inr s' =>
+      steps := steps + (s'.tape.head - s.tape.head).natAbs
+      s := s'
+  return s!"limit steps={steps}"
+
 def handle (op : String) (args : List String) (text : String) : String :=
   match op, args with
   | "parse", [] => withProg text fun p => p.show none
@@ -81,6 +101,8 @@ def handle (op : String) (args : List String) (text : String) : String :=
       let hex := String.ofList (List.replicate (16 - hex.length) '0') ++ hex
       s!"{n} {hex} {showObs t}"
   | "l0run", [budget] => withProg text fun p => (Oracle.run p budget.toNat!).show
+  | "l0linrec", [budget] => withProg text fun p => Oracle.linrec p budget.toNat!
+  | "rec_steps", [lim] => withProg text fun p => recSteps p lim.toNat!
   | "l0cfgs", [ns] => withProg text fun p =>
       "/".intercalate (Oracle.cfgsAt p ((ns.splitOn ",").map String.toNat!))
   | "slots", [] => withProg text showSlots
